@@ -177,7 +177,7 @@ def generate(tier):
     for m in BEHAVIOURAL:
         mod = importlib.import_module('vf.props.' + m)
         for c in mod.generate('quick'):
-            if tier == 'quick' and c.depth > 2:
+            if tier == 'quick' and c.depth > 3:
                 continue
             cases.append(Case('C01|%s' % c.key, c.body, c.spec, expect=c.expect, run=False, depth=c.depth))
     seen, out = set(), []
@@ -190,7 +190,7 @@ def generate(tier):
 
 def check(v, tier):
     cases = generate(tier)
-    res = rt_run(cases, run=False, name='C01', shard_size=700)
+    res = rt_run(cases, run=False, name='C01', shard_size=750)
     v.add_states(cases)
     warn_free = 0
     for r in res:
@@ -216,7 +216,7 @@ def check(v, tier):
     for c in cases[::step][:8]:
         v.sample({'key': c.key, 'program': c.body[:1200]})
     if tier == 'quick':
-        v.cap('quick tier: all 4095 trait subsets on two canonical shapes only (sizes 1, 2 and all on the other seven); behavioural request spaces restricted to at most two deviations from the plain derive')
+        v.cap('quick tier: all 4095 trait subsets on two canonical shapes only (sizes 1, 2 and all on the other seven); behavioural request spaces restricted to at most three deviations from the plain derive')
     guard(len(cases) > 8000, 'too few C01 states')
     return v.finish('(a) trait dimension: every non-empty subset of the 12 traits (of the traits a shape supports) on canonical shapes {generic struct, generic two-variant enum; thorough: + tuple struct, '
                     'unit struct, single-variant enum, empty enum, enum with unit variants, struct with lifetime / bounded type / const parameters and a where-clause, union}, with the markers each trait '
